@@ -8,7 +8,8 @@ from ..common import rat, unrat
 PROP = "C03"
 RULE = ("[== matrices: every ordered pair of zero / negligible / non-zero terms, numbers and sums; histories re-using the "
         "same operand objects; wide-range coefficients (2^-30 .. 2^33 in one operator); sibling operands differing in one "
-        "component; caller-mutates-then-asks-again; exponents up to 64; explicit identities, indices up to 2^40] op-sequence programs over terms / sums / numbers (+ - * / ** simplify ==, numbers on either side) and the "
+        "component; caller-mutates-then-asks-again; exponents up to 1024; explicit identities, indices up to 2^64; terms on up to 70 "
+        "qubits, sums of up to 200 terms; int / float / complex / bool / numpy scalar types; augmented assignment; two float routes] op-sequence programs over terms / sums / numbers (+ - * / ** simplify ==, numbers on either side) and the "
         "exhaustive table of products of all Pauli strings on <=3 qubits in both orders; non-trivial: a binary step "
         "whose two operands are initial operators that are both non-constant with overlapping qubit supports, or an "
         "initial sum containing a duplicate operator string or a zero coefficient; distinct = distinct canonical JSON")
@@ -47,8 +48,11 @@ def T(ops, re=1, im=0, ty=None):
     return d
 
 
-def S(*terms):
-    return {"k": "sum", "terms": list(terms)}
+def S(*terms, ty=None):
+    d = {"k": "sum", "terms": list(terms)}
+    if ty:
+        d["ty"] = ty  # "tuple": PauliSum built from a tuple of terms (any Sequence is accepted)
+    return d
 
 
 def N(re, im=0, ty=None):
@@ -111,6 +115,52 @@ def _corpus_wide_2():
     g = _Prog([T([[0, "Z"]], 32), T([[0, "X"]], Fraction(1, 2 ** 25)), T([[1, "Y"]], Fraction(1, 2 ** 30)), N(Fraction(1, 2 ** 25))])
     zx = g("add", Z, X); g("add", zx, Y); g("eq", zx, Z); g("eq", Z, zx); d = g("sub", zx, Z); g("eq", d, X)
     n1 = g("add", Z, NUM); n2 = g("add", NUM, Z); g("eq", n1, Z); g("eq", n1, n2); g("mul", zx, Y); g("mul", X, zx)
+    return g.case("wide")
+
+
+def _corpus_sizes_types(which):
+    if which == 0:
+        # terms on ten qubits (indices 3 .. 70), two clashes with an odd and an even number of anticommuting positions, the
+        # same string in another dict order: products both ways, like terms merged
+        oa = [[q, p_] for q, p_ in zip([3, 8, 9, 17, 31, 32, 33, 63, 64, 70], "XYZXYZXYZX")]
+        ob = [[q, p_] for q, p_ in zip([70, 64, 63, 33, 32, 31, 17, 9, 8, 3], "XZYXZZXZZY")]
+        g = _Prog([T(oa, Fraction(3, 8)), T(ob, 0, 2), T(list(reversed(oa)), Fraction(5, 8)), T(sorted(oa), 1)])
+        ab = g("mul", 0, 1); ba = g("mul", 1, 0); g("add", ab, ba); g("sub", ab, ba); m = g("add", 0, 2); g("eq", m, 3); g("eq", 3, m)
+        g("pow", 0, p=3); s_ = g("add", 0, 1); g("pow", s_, p=2); g("mul", s_, s_)
+        return g.case("longterm")
+    if which == 1:
+        # a sum of 65 terms (X0 / Y0 Z1 alternating, each 1/8) and the same terms the other way round, built from a tuple
+        ts = [T([[0, "X"]] if k % 2 else [[1, "Z"], [0, "Y"]], Fraction(1, 8)) for k in range(65)]
+        g = _Prog([S(*ts), S(*[dict(t) for t in reversed(ts)], ty="tuple"), S(T([[0, "X"]], 4), T([[0, "Y"], [1, "Z"]], Fraction(33, 8))), S()])
+        s1 = g("simplify", 0); s2 = g("simplify", 1); g("eq", s1, s2); g("eq", s1, 2); g("eq", 2, s2); d = g("sub", 0, 1); g("eq", d, 3)
+        g("mul", 0, 2); g("add", 0, 1); g("mul", 2, 1)
+        return g.case("longsum")
+    if which == 2:
+        # int / int division that is not exact in integers; numpy float64 / complex128 and bool as numbers and coefficients
+        g = _Prog([T([[0, "X"]], 5, 0, "int"), N(4, 0, "int"), T([[1, "Y"]], Fraction(3, 2), 0, "npfloat"),
+                   T([[0, "Z"]], Fraction(1, 2), Fraction(-1, 2), "npcomplex"), N(0, -2, "npcomplex"), N(Fraction(1, 2), 0, "npfloat"),
+                   N(1, 0, "bool"), N(0, 0, "bool")])
+        g("div", 0, 1); g("mul", 0, 1); g("mul", 1, 0); s_ = g("add", 0, 2); s_ = g("add", s_, 3); g("mul", s_, 4); g("div", s_, 4)
+        g("add", s_, 5); g("sub", 3, 4); g("mul", 6, s_); g("mul", s_, 7); g("add", 6, 0); g("pow", s_, p=1, pbool=True); g("eq", 2, 5)
+        return g.case("types")
+    if which == 3:
+        # augmented assignment leaves the operand alone; (a / 3) * 3 == a and ten times a / 10 == a for sums
+        g = _Prog([S(T([[0, "X"]], Fraction(3, 8)), T([[1, "Z"]], 1)), T([[0, "X"]], Fraction(5, 8)), N(3), N(Fraction(0.1)), N(2)])
+        x = g("iadd", 0, 1); y = g("add", 0, 1); g("eq", x, y); g("isub", 0, 0); g("imul", 0, 4); g("idiv", 0, 4); g("ipow", 0, p=2)
+        g("iadd", 1, 1); g("imul", 1, 0)
+        d = g("div", 0, 2); m = g("mul", d, 2); s0 = g("simplify", 0); g("eq", m, s0); g("eq", s0, m)
+        t = g("mul", 0, 3); acc = g("add", t, t)
+        for _ in range(8):
+            acc = g("add", acc, t)
+        g("eq", acc, s0); g("eq", s0, acc)
+        c = g.case("inplace")
+        c["exact"] = False
+        return c
+    # one coefficient with parts of very different size; a value below 1e-8 as divisor
+    g = _Prog([T([[0, "X"]], 2 ** 30, Fraction(1, 8)), T([[0, "Y"]], Fraction(1, 8), 2 ** 30), N(2 ** 30, Fraction(-1, 4)),
+               S(T([[0, "X"]], 2 ** 30, Fraction(1, 8)), T([[1, "Z"]], Fraction(1, 8), -2 ** 30)), N(Fraction(1, 2 ** 30)), N(2)])
+    g("add", 0, 1); g("add", 0, 0); g("sub", 3, 0); g("mul", 0, 5); g("mul", 5, 3); g("add", 3, 2); g("sub", 2, 0); g("div", 3, 4)
+    g("simplify", 3); g("eq", 0, 1)
     return g.case("wide")
 
 
@@ -187,8 +237,9 @@ def corpus():
            T([[3, "I"]], 2), N(2)],
           [st("mul", 0, 1), st("mul", 1, 0), st("add", 5, 6), st("add", 1, 2), st("pow", 8, p=2), st("eq", 3, 4), st("eq", 4, 3),
            st("add", 0, 3), st("mul", 3, 0), st("sub", 1, 1)]),
-        # FINDING eq-near-zero-terms-on-different-strings: 2^-27 X0 (within 1e-8 of zero) == 2^-26 Z1 (1.5e-8: not) is True,
-        # the mirrored comparison is False
+        _corpus_sizes_types(0), _corpus_sizes_types(1), _corpus_sizes_types(2), _corpus_sizes_types(3), _corpus_sizes_types(4),
+        # regression input of the FIXED defect (933c62f): 2^-27 X0 (within 1e-8 of zero) == 2^-26 Z1 (1.5e-8: not) was True,
+        # the mirrored comparison False
         P([T([[0, "X"]], Fraction(1, 2 ** 27)), T([[1, "Z"]], Fraction(1, 2 ** 26))], [st("eq", 0, 1), st("eq", 1, 0)], exact=False),
     ]
 
@@ -260,7 +311,7 @@ def _sum(rng, pool):
             dup["c"] = _c(re, im)
         dup.pop("ty", None)
         terms.insert(rng.randrange(len(terms) + 1), dup)
-    return S(*terms)
+    return S(*terms, ty="tuple" if rng.random() < 0.1 else None)
 
 
 DIVISORS_EXACT = [(1, 0), (-1, 0), (2, 0), (-4, 0), (Fraction(1, 2), 0), (0, 1), (0, -2), (1, 1), (1, -1), (-2, 2),
@@ -687,11 +738,26 @@ def _wide_case(rng, tier):
     Hh = g.val(term(0, hi), hi - 3, hi + 1)
     Oo = g.val(term(1, lo), lo - 3, lo + 1)
     extra = []
-    menu = ["like", "W", "W", "W2", "NH", "NO", "CH", "CO", "NEG", "WNEG", "O2", "near"]
+    menu = ["like", "W", "W", "W2", "NH", "NO", "CH", "CO", "NEG", "WNEG", "O2", "near", "MIX", "MIX", "EDGE"]
     near = None
     for what in rng.sample(menu, rng.randrange(2, 5)):
         if what == "like":
             extra.append(g.val(term(0, lo), lo - 3, lo + 1))
+        elif what == "MIX":
+            # ONE coefficient whose real and imaginary part are of very different size (either way round)
+            a_, b_ = _scaled(rng, hi, cplx=False)[0], _scaled(rng, lo, cplx=False)[0]
+            re_, im_ = (a_, b_) if rng.random() < 0.5 else (b_, a_)
+            v = rng.choice([T(list(strs[rng.randrange(3)]), re_, im_), N(re_, im_), T([], re_, im_),
+                            S(T(list(strs[0]), re_, im_), T(list(strs[1]), im_, re_))])
+            extra.append(g.val(v, lo - 3, hi + 1, 2 if v["k"] == "sum" else 1))
+        elif what == "EDGE":
+            # just above / just below the 1e-8 cut-off, on strings of their own: 2^-26 (1.5e-8) stays, 2^-27 (7.5e-9) goes
+            m_ = Fraction(rng.choice([8, 9, 10]), 8) * rng.choice([1, -1])
+            e_ = rng.choice([-26, -27])
+            c_ = (m_ * Fraction(2) ** e_, 0) if rng.random() < 0.6 else (0, m_ * Fraction(2) ** e_)
+            t_ = T([[qstar, rng.choice(LETTERS)]], *c_)
+            v = t_ if rng.random() < 0.5 else S(term(0, lo), t_, term(1, lo))
+            extra.append(g.val(v, lo - 3, lo + 1, 3 if v["k"] == "sum" else 1, lin=True))
         elif what == "near":
             # the huge term with its coefficient moved by 2^-14 of its size: a different operator for every tolerance
             h = g.vals[Hh]
@@ -714,7 +780,7 @@ def _wide_case(rng, tier):
             extra.append(g.val(T([], *_scaled(rng, s_)), s_ - 3, s_ + 1))
     divs = []
     for _ in range(rng.randrange(0, 3)):
-        j = rng.choice([-3, -1, 1, 2, 5, hi, lo - 1])
+        j = rng.choice([-3, -1, 1, 2, 5, hi, lo - 1, -30, -40])
         sgn = rng.choice([1, -1])
         v = N(sgn * Fraction(2) ** j) if rng.random() < 0.6 else N(0, sgn * Fraction(2) ** j)
         d = g.val(v, j, j)
@@ -751,6 +817,14 @@ def _wide_case(rng, tier):
         g.eq(Hh, near); g.eq(near, Hh)
         x = g.add("add", Hh, Oo); y = g.add("add", Oo, near)
         g.eq(x, y); g.eq(y, x)
+    if rng.random() < 0.3:
+        # a sum against a NUMBER: huge constant + an ordinary term is not the huge constant
+        nh = next((i for i in extra if g.info[i]["k"] == "num" and g.info[i]["H"] == hi + 1), None)
+        if nh is not None:
+            x = g.add("add", nh, Oo); y = g.add("add", Oo, nh)
+            g.eq(x, nh); g.eq(nh, x); g.eq(x, y)
+            z = g.add("sub", x, Oo)
+            g.eq(z, nh); g.eq(nh, z)
     # what the tolerance must and must not do, written as comparisons (a significant term next to a huge one)
     r = rng.random()
     if r < 0.4:
@@ -817,6 +891,13 @@ def _sibling_case(rng, tier):
                (S(T(list(ops0), re, im)), False)]                          # the one-term sum
         if im == 0:
             sib.append((T(list(ops0), re, 0, "int" if re.denominator == 1 else "complex"), False))
+        if rng.random() < 0.3:
+            # numbers Python hashes alike: hash(-1) == hash(-2), hash(-1.0) == hash(-2.0)
+            re, im = Fraction(-1), Fraction(0)
+            ty_ = rng.choice(["int", None])
+            base = T(ops0, -1, 0, ty_)
+            sib = sib[:3] + [(T(list(ops0), -2, 0, ty_), False), (T(list(ops0), -2, 0, "int" if ty_ is None else None), False),
+                             (T(list(reversed(ops0)), -1, 0, "complex"), False)]
         else:
             sib.append((T(list(ops0), re, -im), False))                    # conjugate coefficient
     else:
@@ -905,7 +986,9 @@ def _sibling_case(rng, tier):
 
 
 # ------------------------------------------------------------------ the caller changes what it holds, then asks again
-def _poke_value(rng):
+def _poke_value(rng, zero_p=0.0):
+    if rng.random() < zero_p:
+        return _c(0)
     k = rng.randrange(33, 64) * rng.choice([1, -1])
     return _c(Fraction(k, 8), rng.choice([0, 0, Fraction(rng.randrange(17, 32), 8)]))
 
@@ -928,7 +1011,13 @@ def _poison_case(rng, tier):
     g = _Prog([a, b, raw, simp, N(nre, nim)])
 
     def poke(r, j=None):
-        g.steps.append({"op": "poke", "a": r, "j": rng.randrange(4) if j is None else j, "c": _poke_value(rng)})
+        how = rng.choice(["coef", "coef", "coef", "append", "delete", "replace"])
+        st_ = {"op": "poke", "a": r, "j": rng.randrange(4) if j is None else j, "c": _poke_value(rng)}
+        if how != "coef":
+            # through the public `terms` list of a sum (no effect on a term / a sum built from a tuple: then the coefficient)
+            st_["how"] = how
+            st_["t"] = T(list(rng.choice(strs)), *[unrat(x) for x in _poke_value(rng)])
+        g.steps.append(st_)
         return len(g.vals) + len(g.steps) - 1
 
     def call(kind):
@@ -971,6 +1060,11 @@ def _poison_case(rng, tier):
             if rng.random() < 0.5:
                 poke(r2, 0); f()
             g("eq", r1, r2)
+            # the changed result goes on as an operand (a sum that was simplified when handed out need not be any more)
+            u = g("add", r1, B); g("mul", r1, A); g("sub", r1, r1); g("eq", u, r1)
+            w = g("add", r1, NUM)
+            g.steps.append({"op": "poke", "a": w, "j": rng.randrange(3), "c": _poke_value(rng, zero_p=0.5)})
+            g("simplify", w); g("add", w, B); g("mul", w, NUM); g("pow", w, p=2); g("eq", w, w)
     elif r < 0.7:
         # identities and zeros handed out by the library: a ** 0, s ** 0, s * number (built on identity()), a - a
         x = rng.choice([A, RAW, SIMP]); y = rng.choice([A, RAW, SIMP])
@@ -1008,8 +1102,12 @@ def _bigpow_case(rng, tier):
     for _ in range(rng.randrange(3, 6)):
         a = rng.randrange(len(vals))
         p = rng.choice(list(range(7, 22)) + [31, 32, 33, 34, 40, 42, 63, 64])
-        if a == 1:
-            p = min(p, 40)
+        if a in (0, 4) and rng.random() < 0.4:
+            p = rng.choice([100, 255, 256, 257, 1000, 1023, 1024])   # unit coefficient / projector: nothing grows
+        elif a in (1, 2) and rng.random() < 0.3:
+            p = rng.choice([100, 127, 128, 255, 256, 257, 500, 1000])  # 2^+-1000 and (1 + i)^1000 are still doubles
+        elif a == 3 and rng.random() < 0.3:
+            p = rng.choice([65, 100, 128, 255, 256])                   # (X + cY)^2 = (1 + c^2) I: grows like 2^(p/2) at most
         r1 = g("pow", a, p=p); r2 = g("pow", a, p=p + 1); r3 = g("mul", r1, a); g("eq", r2, r3)
         if rng.random() < 0.5:
             g("mul", a, r1); g("eq", r1, r2)
@@ -1075,6 +1173,208 @@ def _lookalike_case(rng, tier):
     return g.case("lookalike")
 
 
+# ------------------------------------------------------------------ sizes: long terms, long sums
+def _longterm_case(rng, tier):
+    """terms acting on 9 .. 70 qubits (more than any table of small cases, more than a machine word of two-bit codes),
+    indices up to 80 and beyond, dictionaries in arbitrary insertion order: products both ways, sums, powers, like terms
+    that differ in dict order only.  (Judged on sampled rows of the 2^n x 2^n matrices and, exactly, by the model.)"""
+    n = rng.choice([9, 10, 12, 16, 17, 31, 32, 33, 40, 64, 65, 70])
+    universe = rng.sample(range(80), n)
+    if rng.random() < 0.3:
+        universe[rng.randrange(n)] = rng.choice(HUGE_INDEX[3:])
+        universe = list(dict.fromkeys(universe))
+
+    def long_ops(k=None, base=None):
+        k = rng.randrange(9, len(universe) + 1) if k is None else k
+        qs = rng.sample(universe, min(k, len(universe)))
+        if base is not None and rng.random() < 0.7:
+            # mostly the letters of `base`, a few changed: many common qubits, a handful of clashes
+            d = dict(map(tuple, base))
+            return [[q, (d[q] if q in d and rng.random() < 0.8 else rng.choice(LETTERS))] for q in qs]
+        return [[q, rng.choice(LETTERS)] for q in qs]
+
+    oa = long_ops()
+    ca, cl = _coeff(rng, allow_zero=False), _coeff(rng, allow_zero=False)
+    if (ca[0] + cl[0], ca[1] + cl[1]) == (0, 0):
+        cl = (cl[0] + Fraction(1, 8), cl[1])
+    a = T(oa, *ca)
+    b = T(long_ops(base=oa), *_coeff(rng, allow_zero=False))
+    a2 = list(oa); rng.shuffle(a2)
+    alike = T(a2, *cl)                                                   # the string of a in another dict order
+    merged = T(sorted(oa), ca[0] + cl[0], ca[1] + cl[1])                 # a + alike written down directly
+    short = T(long_ops(k=rng.randrange(1, 4)), *_coeff(rng, allow_zero=False))
+    c = T(long_ops(k=len(oa), base=oa), *_coeff(rng, allow_zero=False))
+    raw = S(dict(a), b, alike, short, T(list(reversed(oa)), *_coeff(rng, allow_zero=False)))
+    A, B, ALIKE, SHORT, C, RAW, NUM, MERGED = range(8)
+    g = _Prog([a, b, alike, short, c, raw, N(*rng.choice([(2, 0), (0, 1), (Fraction(-1, 2), 0), (1, 1)])), merged])
+    ab = g("mul", A, B); ba = g("mul", B, A); g("add", ab, ba); g("sub", ab, ba); g("eq", ab, ba)
+    sr = g("simplify", RAW); g("eq", sr, RAW)
+    m = g("add", A, ALIKE); g("sub", A, ALIKE); g("eq", A, ALIKE); g("eq", m, MERGED); g("eq", MERGED, m)
+    m2 = g("add", ALIKE, A); g("eq", m, m2)
+    pool_ops = [A, B, ALIKE, SHORT, C, RAW, sr, m, ab]
+    for _ in range(rng.randrange(3, 7)):
+        x, y = rng.choice(pool_ops), rng.choice(pool_ops)
+        r = rng.random()
+        if r < 0.4:
+            g("mul", x, y)
+        elif r < 0.55:
+            g(rng.choice(["add", "sub"]), x, y)
+        elif r < 0.7:
+            t_ = rng.choice([A, B, C, SHORT])
+            g("pow", t_, p=rng.choice([2, 3, 4, 5]))
+        elif r < 0.8:
+            g("mul", x, NUM) if rng.random() < 0.5 else g("mul", NUM, x)
+        elif r < 0.9:
+            g("div", x, NUM)
+        else:
+            g("eq", x, y)
+    s2 = g("add", A, C); g("pow", s2, p=2)
+    return g.case("longterm")
+
+
+def _longsum_case(rng, tier):
+    """sums of 9 .. 130 terms (on 2 - 4 qubits, so with many like terms in every order): simplify, + - *, == of the same
+    terms in another order, against short operands of every kind"""
+    pool = _pool(rng, 4)
+    if len(pool) < 2:
+        pool = sorted(set(pool + [pool[0] + 1]))
+    L = rng.choice([9, 12, 17, 33, 63, 64, 65, 70, 129] if tier == "quick" else [9, 16, 33, 63, 64, 65, 100, 128, 129, 200])
+    ts = [_term(rng, pool, allow_zero=(rng.random() < 0.3), const_p=0.05) for _ in range(L)]
+    for t in ts:
+        t.pop("ty", None)
+    perm = [dict(t, ops=rng.sample(t["ops"], len(t["ops"]))) for t in ts]
+    rng.shuffle(perm)
+    short = _sum(rng, pool)
+    LONG, PERM, SHORT, TERM, NUM, EMPTY = range(6)
+    g = _Prog([S(*ts), S(*perm, ty="tuple" if rng.random() < 0.3 else None), short, _term(rng, pool, allow_zero=False),
+               N(*rng.choice([(2, 0), (0, 1), (Fraction(-1, 2), 0), (1, -1)])), S()])
+    s1 = g("simplify", LONG); s2 = g("simplify", PERM); g("eq", s1, s2); g("eq", s2, s1)
+    a1 = g("add", LONG, EMPTY); g("eq", a1, s1); d = g("sub", LONG, PERM); g("eq", d, EMPTY); g("eq", EMPTY, d)
+    g("add", LONG, PERM); g("add", LONG, TERM); g("sub", TERM, LONG); g("add", NUM, LONG); g("sub", LONG, NUM)
+    g("mul", LONG, TERM); g("mul", TERM, LONG); g("mul", LONG, NUM); g("mul", NUM, LONG); g("div", LONG, NUM)
+    g("mul", LONG, SHORT); m2 = g("mul", SHORT, PERM); g("eq", LONG, PERM)
+    if L <= 20:
+        g("pow", LONG, p=2); g("mul", LONG, PERM)
+    g("pow", s1, p=2); g("mul", s1, s2)
+    return g.case("longsum")
+
+
+# ------------------------------------------------------------------ number types, augmented assignment
+def _types_case(rng, tier):
+    """the same values carried by every legal Python type: int / float / complex / bool, numpy's float64 and complex128
+    (which ARE float / complex); as coefficients and as plain numbers (numpy scalars on the right only: on the left numpy's
+    own operator takes over before the library is asked); int / int division that is not exact in integers"""
+    pool = _pool(rng, 3)
+    strs = _strings(rng, pool, 3)
+    k1 = rng.choice([1, 3, -1, 5, -7, 2, -6])
+    a_int = T(list(strs[0]), k1, 0, "int")
+    a_np = T(list(strs[1]), Fraction(rng.randrange(-16, 17) or 3, 8), 0, "npfloat")
+    cz = _coeff(rng, allow_zero=False)
+    a_npc = T(list(strs[2]), cz[0], cz[1] or Fraction(3, 8), "npcomplex")
+    a_bool = T(list(strs[0]), 1, 0, "bool")
+    su = S(dict(a_int), a_np, a_npc, T(list(strs[0]), k1 + 1, 0, "int"))
+    d_int = N(rng.choice([2, 4, -2, 8, -4]), 0, "int")
+    n_npf = N(Fraction(rng.choice([2, -4, 1, -1]), rng.choice([1, 2, 4])), 0, "npfloat")     # +-2^k: exact reciprocal
+    n_npc = N(*rng.choice([(0, 1), (1, 1), (Fraction(1, 2), Fraction(-1, 2)), (0, -2)]), "npcomplex")
+    n_true, n_false = N(1, 0, "bool"), N(0, 0, "bool")
+    AI, ANP, ANPC, AB, SU, DI, NF, NC, TRUE, FALSE = range(10)
+    g = _Prog([a_int, a_np, a_npc, a_bool, su, d_int, n_npf, n_npc, n_true, n_false])
+    ops = [AI, ANP, ANPC, AB, SU]
+    g("div", AI, DI); g("div", SU, DI); g("mul", AI, DI); g("mul", DI, AI); g("add", AI, DI); g("sub", DI, AI)
+    for _ in range(rng.randrange(6, 12)):
+        x = rng.choice(ops)
+        r = rng.random()
+        if r < 0.45:
+            g(rng.choice(["mul", "add", "sub", "div", "eq"]), x, rng.choice([NF, NC]))       # numpy scalar on the right
+        elif r < 0.65:
+            nb = rng.choice([TRUE, FALSE, DI])
+            op = rng.choice(["mul", "add", "sub", "eq"])
+            g(op, x, nb) if rng.random() < 0.5 else g(op, nb, x)
+        elif r < 0.8:
+            g(rng.choice(["mul", "add", "sub", "eq"]), x, rng.choice(ops))
+        elif r < 0.9:
+            g("pow", x, p=rng.choice([0, 1]), pbool=True)
+        else:
+            g("pow", x, p=rng.choice([2, 3]))
+    g("div", ANPC, TRUE); g("simplify", SU); g("mul", SU, SU); g("eq", AB, TRUE); g("eq", TRUE, AB)
+    c = g.case("types")
+    return c
+
+
+def _inplace_case(rng, tier):
+    """augmented assignment `x = a; x += b` (also -= *= /= **=) gives the value of the plain operation and must leave the
+    object `a` (still held under its own name) alone; the plain operation on the same objects follows"""
+    pool = _pool(rng, 3)
+    strs = _strings(rng, pool, 3)
+    a = T(list(strs[0]), *_coeff(rng, allow_zero=False))
+    b = T(list(rng.choice(strs[:2])), *_coeff(rng, allow_zero=False))
+    raw = S(dict(a), T(list(strs[1]), *_coeff(rng)), T(list(reversed(strs[0])), *_coeff(rng, allow_zero=False)))
+    simp = S(T(list(strs[1]), *_coeff(rng, allow_zero=False)), T(list(strs[2]), *_coeff(rng, allow_zero=False)),
+             ty="tuple" if rng.random() < 0.2 else None)
+    nre, nim = rng.choice([(2, 0), (-1, 0), (Fraction(1, 2), 0), (0, 1), (4, 0), (0, -2)])
+    A, B, RAW, SIMP, NUM = range(5)
+    g = _Prog([a, b, raw, simp, N(nre, nim)])
+    for _ in range(rng.randrange(3, 7)):
+        x = rng.choice([A, RAW, SIMP, A, SIMP]); y = rng.choice([B, RAW, SIMP, NUM, A])
+        fam = rng.choice(["add", "sub", "mul", "div", "pow"])
+        if fam == "div":
+            y = NUM
+        if fam == "pow":
+            p = rng.choice([0, 1, 2, 3])
+            r1 = g("ipow", x, p=p); r2 = g("pow", x, p=p)
+        else:
+            r1 = g("i" + fam, x, y); r2 = g(fam, x, y)
+        g("eq", r1, r2)
+        if rng.random() < 0.4:
+            g("i" + rng.choice(["add", "sub", "mul"]), r1, x)      # the result of the first goes on, the operand is used again
+            g("eq", x, x)
+    return g.case("inplace")
+
+
+# ------------------------------------------------------------------ one value reached along two floating-point routes
+def _routes_case(rng, tier):
+    """the same operator computed along two routes whose doubles differ in the last bits ((a / 3) * 3 vs a, (a + b) * n vs
+    a * n + b * n, ten times a * 0.1 vs a, a * n1 * n2 vs a * (n1 n2)): both are simplified operators denoting the same
+    matrix to 1e-16, so == must be True (and every step the matrix operation, to double rounding)"""
+    pool = _pool(rng, 3)
+    strs = _strings(rng, pool, 3)
+    a = T(list(strs[0]), *_coeff(rng, allow_zero=False))
+    b = T(list(strs[1]), *_coeff(rng, allow_zero=False))
+    su = S(T(list(strs[0]), *_coeff(rng, allow_zero=False)), T(list(strs[2]), *_coeff(rng, allow_zero=False)),
+           T(list(strs[1]), *_coeff(rng, allow_zero=False)))
+    n1 = rng.choice([3, 7, Fraction(0.1), Fraction(0.3), 5, Fraction(1.7)])
+    n2 = rng.choice([3, Fraction(0.7), 9, Fraction(1.1), 6])
+    n12 = Fraction(float(n1) * float(n2))
+    A, B, SU, N1, N2, N12, TENTH, TEN = range(8)
+    g = _Prog([a, b, su, N(n1), N(n2), N(n12), N(Fraction(0.1)), N(10)])
+    x = rng.choice([A, SU])
+    for _ in range(rng.randrange(2, 5)):
+        r = rng.random()
+        if r < 0.25:
+            d = g("div", x, N1); m = g("mul", d, N1); g("eq", m, x); g("eq", x, m)
+            sx = g("add", x, B); sm = g("add", m, B); g("eq", sx, sm); g("eq", sm, sx)
+        elif r < 0.5:
+            s_ = g("add", x, B); l = g("mul", s_, N1); xa = g("mul", x, N1); xb = g("mul", B, N1); r_ = g("add", xa, xb)
+            g("eq", l, r_); g("eq", r_, l)
+        elif r < 0.7:
+            t = g("mul", x, TENTH); acc = g("add", t, t)
+            for _k in range(8):
+                acc = g("add", acc, t)
+            sx = g("add", x, B); sa = g("add", acc, B); g("eq", sx, sa); g("eq", sa, sx)
+            back = g("mul", t, TEN); sb = g("add", back, B); g("eq", sb, sx)
+        elif r < 0.85:
+            u = g("mul", x, N1); u = g("mul", u, N2); v = g("mul", x, N12)
+            su_ = g("add", u, B); sv = g("add", v, B); g("eq", su_, sv); g("eq", sv, su_)
+        else:
+            d1 = g("div", x, N1); d2 = g("div", d1, N2); e = g("div", x, N12)
+            s1 = g("add", d1, B); g("sub", s1, d1)
+            sd = g("add", d2, B); se = g("add", e, B); g("eq", sd, se); g("eq", se, sd)
+        x = rng.choice([A, SU])
+    c = g.case("routes")
+    c["exact"] = False
+    return c
+
+
 def _malformed(rng):
     pool = [0, 1, 2]
     a = _term(rng, pool)
@@ -1124,6 +1424,16 @@ def generate(rng, tier):
         cases.append(_bigpow_case(rng, tier))
     for _ in range(120 if big else 24):
         cases.append(_lookalike_case(rng, tier))
+    for _ in range(120 if big else 24):
+        cases.append(_longterm_case(rng, tier))
+    for _ in range(50 if big else 14):
+        cases.append(_longsum_case(rng, tier))
+    for _ in range(100 if big else 24):
+        cases.append(_types_case(rng, tier))
+    for _ in range(100 if big else 24):
+        cases.append(_inplace_case(rng, tier))
+    for _ in range(100 if big else 24):
+        cases.append(_routes_case(rng, tier))
     return cases
 
 
@@ -1156,8 +1466,16 @@ def _num(c, ty=None):
     re, im = unrat(c[0]), unrat(c[1])
     if ty == "int":
         return int(re)
+    if ty == "bool":
+        return bool(re)
     if ty == "complex":
         return complex(float(re), float(im))
+    if ty == "npfloat":    # numpy scalars that ARE Python floats / complexes (subclasses)
+        import numpy as np
+        return np.float64(float(re))
+    if ty == "npcomplex":
+        import numpy as np
+        return np.complex128(complex(float(re), float(im)))
     if im == 0:
         return float(re)
     return complex(float(re), float(im))
@@ -1171,7 +1489,8 @@ def _build(v):
         return _num(v["c"], v.get("ty"))
     if v["k"] == "term":
         return PauliTerm({int(q): p for q, p in v["ops"]}, _num(v["c"], v.get("ty")))
-    return PauliSum([_build(t) for t in v["terms"]])
+    ts = [_build(t) for t in v["terms"]]
+    return PauliSum(tuple(ts) if v.get("ty") == "tuple" else ts)
 
 
 def _cnum(x):
@@ -1195,7 +1514,7 @@ def _canon(o):
 
 def _expo(s):
     if "p" in s:
-        return int(s["p"])
+        return bool(s["p"]) if s.get("pbool") else int(s["p"])
     return complex(s["pf"]) if "j" in s["pf"] else float(s["pf"])
 
 
@@ -1211,12 +1530,36 @@ def _fp(o):
     return None
 
 
+IOPS = {"iadd": "add", "isub": "sub", "imul": "mul", "idiv": "div", "ipow": "pow"}
+
+
+def _one_term_per_string(r):
+    """the operator held by the sum r written down afresh with ONE term per operator string (exact merge of r's own
+    coefficients, strings whose merged coefficient is within 1e-8 of zero left out), terms in sorted order"""
+    from orquestra.quantum.operators import PauliSum, PauliTerm
+
+    table = {}
+    for t in r.terms:
+        z = complex(t.coefficient)
+        key = tuple(sorted(t._ops.items()))
+        re, im = table.get(key, (Fraction(0), Fraction(0)))
+        table[key] = (re + Fraction(z.real), im + Fraction(z.imag))
+    terms = []
+    for key in sorted(table):
+        z = complex(float(table[key][0]), float(table[key][1]))
+        if abs(z) > 1e-8:
+            terms.append(PauliTerm(dict(key), z))
+    return PauliSum(terms)
+
+
 def run_impl(case):
+    from orquestra.quantum.operators import PauliSum
+
     c = expand(case)
     regs = [_build(v) for v in c["vals"]]
-    init = [_canon(r) for r in regs]
+    init = [_canon(int(r) if isinstance(r, bool) else r) for r in regs]   # True / False as operands are the numbers 1 / 0
     fps = [_fp(r) for r in regs]
-    results, changed = [], []
+    results, changed, selfeq = [], [], {}
     for i, s in enumerate(c["steps"]):
         a = regs[s["a"]]
         b = regs[s["b"]] if "b" in s else None
@@ -1237,11 +1580,34 @@ def run_impl(case):
             elif op == "eq":
                 r = (a == b)
                 r = bool(r)
+            elif op in IOPS:
+                # augmented assignment on a second name for the operand object: `x = a; x += b` must leave `a` alone
+                x = a
+                if op == "iadd":
+                    x += b
+                elif op == "isub":
+                    x -= b
+                elif op == "imul":
+                    x *= b
+                elif op == "idiv":
+                    x /= b
+                else:
+                    x **= _expo(s)
+                r = x
             elif op == "poke":
-                # the CALLER assigns the public attribute `coefficient` of one term of an object it holds
+                # the CALLER changes an object it holds through its public attributes: assigns the `coefficient` of one
+                # term, or appends to / deletes from / replaces the `terms` list of a sum
+                how = s.get("how", "coef")
                 ts = a.terms
-                if len(ts):
-                    ts[int(s["j"]) % len(ts)].coefficient = _num(s["c"], s.get("ty"))
+                if how == "coef":
+                    if len(ts):
+                        ts[int(s["j"]) % len(ts)].coefficient = _num(s["c"], s.get("ty"))
+                elif isinstance(a, PauliSum) and how == "append" and isinstance(ts, list):
+                    ts.append(_build(s["t"]))
+                elif isinstance(a, PauliSum) and how == "delete" and isinstance(ts, list) and len(ts):
+                    del ts[int(s["j"]) % len(ts)]
+                elif isinstance(a, PauliSum) and how == "replace":
+                    a.terms = [t.copy() for t in list(ts)[1:]] + [_build(s["t"])]
                 r = None
             else:
                 raise AssertionError("unknown step")
@@ -1261,7 +1627,15 @@ def run_impl(case):
         regs.append(r)
         fps.append(_fp(r))
         results.append("poke" if op == "poke" else _canon(r))
-    return {"init": init, "results": results, "changed": changed}
+        if isinstance(r, PauliSum):
+            # every sum the library hands out is at once compared, both ways round, with the same operator written with one
+            # term per string (an operator returned by the arithmetic / by simplify() is a simplified operator)
+            ref = _one_term_per_string(r)
+            try:
+                selfeq[str(i)] = [bool(r == ref), bool(ref == r)]
+            except Exception as e:  # noqa: BLE001
+                selfeq[str(i)] = "raised " + type(e).__name__
+    return {"init": init, "results": results, "changed": changed, "selfeq": selfeq}
 
 
 # ---------------------------------------------------------------------------------------------- model requests
@@ -1303,7 +1677,8 @@ def requests(case, out):
     c = expand(case)
     if any(s["op"] == "poke" for s in c["steps"]):
         return []  # assignments by the caller are outside the model (values, no object identity): oracle only
-    reqs = [("program", {"vals": [_strip(v) for v in c["vals"]], "steps": c["steps"]})]
+    steps = [dict(s, op=IOPS[s["op"]]) if s["op"] in IOPS else s for s in c["steps"]]
+    reqs = [("program", {"vals": [_strip(v) for v in c["vals"]], "steps": steps})]
     if not isinstance(out, dict) or "results" not in out:
         return reqs
     ftm = _first_term_mul(c)
@@ -1462,6 +1837,90 @@ def _prod_key(ka, kb):
     return tuple(sorted(d.items()))
 
 
+# ---- registers of more than 7 qubits: the same matrices, row by row (a Pauli string has one non-zero entry per row)
+_I4 = [1, 1j, -1, -1j]
+
+
+def _sp_terms(v, pos):
+    """(flip mask, Y mask, Z mask, coefficient) of every term; bit pos[q] of a basis index is qubit q (lowest qubit index =
+    most significant position, as in the dense Kronecker product - irrelevant for the comparison, fixed for definiteness)"""
+    if v["k"] == "num":
+        re, im = _cfr(v["c"])
+        return [(0, 0, 0, complex(float(re), float(im)))]
+    out = []
+    for t in ([v] if v["k"] == "term" else v["terms"]):
+        f = ym = zm = 0
+        for q, p_ in t["ops"]:
+            b = 1 << pos[int(q)]
+            if p_ in ("X", "Y"):
+                f |= b
+            if p_ == "Y":
+                ym |= b
+            if p_ == "Z":
+                zm |= b
+        re, im = _cfr(t["c"])
+        out.append((f, ym, zm, complex(float(re), float(im))))
+    return out
+
+
+def _sp_row(terms, y):
+    """row y of the denoted matrix as {column: entry}: <y| X |y^1> = 1, <1| Y |0> = i, <0| Y |1> = -i, <b| Z |b> = (-1)^b"""
+    out = {}
+    for f, ym, zm, c in terms:
+        ny = ym.bit_count()
+        sign = (ny - (ym & y).bit_count() + (zm & y).bit_count()) & 1
+        val = c * _I4[ny & 3] * (-1 if sign else 1)
+        col = y ^ f
+        out[col] = out.get(col, 0) + val
+    return out
+
+
+def _sp_vecmat(row, terms):
+    out = {}
+    for x, a in row.items():
+        for col, v in _sp_row(terms, x).items():
+            out[col] = out.get(col, 0) + a * v
+    return out
+
+
+def _sp_distance(op, s, va, vb, r, pos, rows):
+    """largest entry-wise distance, over the sampled rows, between the matrix of the result and the matrix operation"""
+    A = _sp_terms(va, pos)
+    B = _sp_terms(vb, pos) if vb is not None else None
+    R = _sp_terms(r, pos)
+    worst = 0.0
+    for y in rows:
+        got = _sp_row(R, y)
+        if op == "add":
+            want = _sp_row(A + B, y)
+        elif op == "sub":
+            want = _sp_row(A + [(f, ym, zm, -c) for f, ym, zm, c in B], y)
+        elif op == "mul":
+            want = _sp_vecmat(_sp_row(A, y), B)
+        elif op == "div":
+            d = B[0][3]
+            want = {k2: x / d for k2, x in _sp_row(A, y).items()}
+        elif op == "pow":
+            want = {y: 1.0}
+            for _ in range(int(s["p"])):
+                want = _sp_vecmat(want, A)
+        else:
+            want = _sp_row(A, y)
+        for k2 in set(got) | set(want):
+            worst = max(worst, abs(got.get(k2, 0) - want.get(k2, 0)))
+    return worst
+
+
+def _sp_moved(v0, v1, pos, rows):
+    A, B = _sp_terms(v0, pos), _sp_terms(v1, pos)
+    worst = 0.0
+    for y in rows:
+        a, b = _sp_row(A, y), _sp_row(B, y)
+        for k2 in set(a) | set(b):
+            worst = max(worst, abs(a.get(k2, 0) - b.get(k2, 0)))
+    return worst
+
+
 DROP = 1.000001e-8   # a like-term group whose merged coefficient has modulus <= 1e-8 is what "simplified" leaves out
 ROUND = 1e-13        # double rounding of a handful of operations, relative to the size of the operands
 
@@ -1509,7 +1968,8 @@ def _allowance(op, s, va, vb, r, nq):
                 g = min(4 ** nq, max(1, len(ka)) ** p)
                 extra = 2 * DROP * p * g * max(1.0, n1a) ** (p - 1)
     ndrop = len(groups - rkeys) if (groups is not None and rkeys is not None) else 0
-    return DROP * ndrop + extra + ROUND * scale
+    nops = max(1, int(s["p"])) if op == "pow" else 1   # double rounding accumulates over the factors of a power
+    return DROP * ndrop + extra + ROUND * nops * scale
 
 
 def oracle(case, out):
@@ -1524,8 +1984,13 @@ def oracle(case, out):
         for t in ([v] if v.get("k") == "term" else v.get("terms", [])):
             qubits |= {int(q) for q, _ in t["ops"]}
     qubits = sorted(qubits)
-    if len(qubits) > 7:
-        return None  # not generated; the dense oracle would need > 128 x 128 matrices
+    sparse = len(qubits) > 7   # > 128 x 128: the same comparison on sampled rows of the matrices (_sp_*)
+    if sparse:
+        import random as _random
+        pos = {q: len(qubits) - 1 - k for k, q in enumerate(qubits)}
+        rr = _random.Random(len(qubits))
+        full = (1 << len(qubits)) - 1
+        rows = [0, full, full // 3, (full // 3) << 1 & full] + [rr.getrandbits(len(qubits)) for _ in range(6)]
     mats = {}
     lib_simplified = set()  # registers holding a sum RETURNED by + - * / ** simplify(): simplified operators by construction
     changes = {}
@@ -1552,18 +2017,20 @@ def oracle(case, out):
         r = out["results"][i]
         op = s["op"]
         if op == "poke":
-            # the caller changed a coefficient of an object it holds: from here on the objects denote what they hold now
+            # the caller changed an object it holds: from here on the objects denote what they hold now
             regs.append(None)
             for j, v in changes.get(i, []):
                 regs[j] = v
                 mats.pop(j, None)
+                lib_simplified.discard(j)
             eq_seen.clear()
             continue
+        op = IOPS.get(op, op)   # `x = a; x += b`: the plain operation (and `a` must still denote what it did, see below)
         ka = kind(s["a"])
         kb = kind(s["b"]) if "b" in s else None
         if "bool" in (ka, kb) or regs[s["a"]] is None or ("b" in s and regs[s["b"]] is None):
             break  # not generated: a comparison result / a poke used as an operand
-        sig = f"{op}:{ka}" + (f"-{kb}" if kb else "")
+        sig = f"{s['op']}:{ka}" + (f"-{kb}" if kb else "")
         desc = f"step {i} {s} on {common.canon(regs[s['a']])[:160]}" + (f" and {common.canon(regs[s['b']])[:160]}" if "b" in s else "")
         indomain = (op in ("add", "sub", "mul", "eq") and not (ka == "num" and kb == "num")) or op == "simplify" \
             or (op == "div" and kb == "num" and ka != "num" and _cfr(regs[s["b"]]["c"]) != (0, 0)) \
@@ -1577,8 +2044,11 @@ def oracle(case, out):
             # + - * / ** simplify() == are value operations: the objects they were given (and every other object the
             # caller holds) must denote the same matrix afterwards, otherwise every later expression on them is wrong.
             # (Re-arranging an object without changing what it denotes - merging its like terms in place - is not reported.)
-            before, after = M(j), _matrix(v, qubits)
-            moved = float(np.max(np.abs(after - before))) if before.size else 0.0
+            if sparse:
+                moved = _sp_moved(regs[j], v, pos, rows)
+            else:
+                before, after = M(j), _matrix(v, qubits)
+                moved = float(np.max(np.abs(after - before))) if before.size else 0.0
             if not moved <= DROP * len(set(_keys(regs[j]))) + ROUND * (_n1(regs[j]) + _n1(v)):
                 return ("operand-changed:" + sig,
                         f"{desc}: the operation changed the matrix denoted by an object the caller holds (by {moved:.3g}): "
@@ -1617,11 +2087,6 @@ def oracle(case, out):
                             f"{desc}: == is False although every coefficient differs by {diff:.3g} <= 1e-8")
                 return ("eq-false-on-equal:" + sig, f"{desc}: == is False although the denoted matrices are equal")
             if apart and r is True:
-                biggest = max([abs(x) for x in list(ta.values()) + list(tb.values())], default=0.0)
-                if biggest <= 2.1e-8 and ka == "term" and kb == "term":
-                    return ("eq-near-zero-terms-on-different-strings",
-                            f"{desc}: == is True although the coefficient of {apart[0]} differs by {diffs[apart[0]]:.3g} > 1e-8 "
-                            f"(left coefficient is within 1e-8 of 0, right one is not)")
                 return ("eq-true-on-different:" + sig,
                         f"{desc}: == is True although the coefficient of {apart[0]} differs by {diffs[apart[0]]:.3g}")
             # a == b iff b == a (matrix equality is symmetric); only outside the tolerance band, where the verdict is fixed
@@ -1633,28 +2098,44 @@ def oracle(case, out):
             continue
         if not (isinstance(r, dict) and r.get("k") in ("term", "sum")):
             return ("result-kind:" + sig, f"{desc}: result {r!r} is not a PauliTerm / PauliSum")
-        got = _matrix(r, qubits)
-        if op == "add":
-            want = M(s["a"]) + M(s["b"])
-        elif op == "sub":
-            want = M(s["a"]) - M(s["b"])
-        elif op == "mul":
-            want = M(s["a"]) @ M(s["b"])
-        elif op == "div":
-            re, im = _cfr(regs[s["b"]]["c"])
-            want = M(s["a"]) / complex(float(re), float(im))
-        elif op == "pow":
-            want = np.linalg.matrix_power(M(s["a"]), int(s["p"]))
-        else:
-            want = M(s["a"])
-        mats[len(regs) - 1] = got
         if r["k"] == "sum":
             lib_simplified.add(len(regs) - 1)
-        err = float(np.max(np.abs(got - want))) if got.size else 0.0
+        if sparse:
+            err = _sp_distance(op, s, regs[s["a"]], regs[s["b"]] if "b" in s else None, r, pos, rows)
+        else:
+            got = _matrix(r, qubits)
+            if op == "add":
+                want = M(s["a"]) + M(s["b"])
+            elif op == "sub":
+                want = M(s["a"]) - M(s["b"])
+            elif op == "mul":
+                want = M(s["a"]) @ M(s["b"])
+            elif op == "div":
+                re, im = _cfr(regs[s["b"]]["c"])
+                want = M(s["a"]) / complex(float(re), float(im))
+            elif op == "pow":
+                want = np.linalg.matrix_power(M(s["a"]), int(s["p"]))
+            else:
+                want = M(s["a"])
+            mats[len(regs) - 1] = got
+            err = float(np.max(np.abs(got - want))) if got.size else 0.0
         allowed = _allowance(op, s, regs[s["a"]], regs[s["b"]] if "b" in s else None, r, len(qubits))
         if not err <= allowed:
             return (sig, f"{desc}: result {common.canon(r)[:200]} denotes a matrix that differs from the matrix "
                          f"{op} of the operands by {err:.3g} (the 1e-8 coefficient tolerance explains at most {allowed:.3g})")
+        se = out.get("selfeq", {}).get(str(i))
+        if r["k"] == "sum" and se is not None and se != [True, True]:
+            # equality between simplified operators coincides with equality of the denoted matrices: the returned sum and
+            # the same operator with one term per string differ at most by merged coefficients within 1e-8 of zero
+            tab = _coeff_table(r)
+            if not any(0.9e-8 < abs(x) <= 1.1e-8 for x in tab.values()):
+                ks = _keys(r)
+                why = ("it holds an operator string twice" if len(set(ks)) < len(ks) else
+                       "it holds a coefficient within 1e-8 of zero" if any(abs(complex(*map(float, _cfr(t["c"])))) <= 1e-8 for t in r["terms"])
+                       else "although it has one term per string already")
+                return ("result-not-simplified:" + sig,
+                        f"{desc}: the returned sum {common.canon(r)[:200]} does not compare equal ({se}) to the same operator "
+                        f"written with one term per operator string: {why}")
     return None
 
 
